@@ -90,8 +90,11 @@ def run(ctx):
         b = F.fn("QueryCommandHandler::handle")
         nw = one(b, r"QueryResponseWriter::new$")
         bad = []
-        seq = one(b, r"QueryExecutionPipeline::is_sequence_query$")
-        te = bool_result_edge(b, seq, True)
+        # the test that decides the writer's limit / offset precedes the writer's construction (a later one may configure the writer)
+        seqs = [c_ for c_ in b.find_calls(r"QueryExecutionPipeline::is_sequence_query$") if b.can_reach(c_.bb, nw.bb) and c_.bb != nw.bb]
+        if not seqs:
+            raise AnchorMissing("is_sequence_query() test before QueryResponseWriter::new in QueryCommandHandler::handle")
+        te = [e for c_ in seqs for e in bool_result_edge(b, c_, True)]
         # on the sequence edge and on the order_by Some edge, the limit/offset operands are None
         lim = nw.args[3]
         off = nw.args[4]
